@@ -87,33 +87,31 @@ def record_decodes(triples, procs=16):
     return events
 
 
-def validate(events, module="CoreTrace", wd=None, extra_env=None, timeout=900, shards=8):
+def validate(events, module="CoreTrace", wd=None, extra_env=None, timeout=1800, shards=8, per_job=1500):
     """returns (bad: {event id: [clauses]}, tlc results) ; unknown ctor pairs make events UNMODELLED"""
     wd = wd or tlc.scratch()
-    tab = CtorTable()
-    for e in events:
-        if e[0] == "Decode":
-            tab.add_pair(e[2], e[3])
-        elif e[0] in ("Encode", "Round") and e[0] == "Round":
-            pass
-    # round-trip events need the wire forms of their values: take them from the recorded Encode results
-    for e in events:
-        if e[0] == "Encode" and e[4][0] == "ok":
-            tab.add_pair(e[2], e[4][1])
-    ctor = os.path.join(wd, f"ctor_{module}.json")
-    with open(ctor, "w") as fh:
-        json.dump(tab.dump(), fh)
-    shards = max(1, min(shards, len(events) // 200 or 1))
+    # one TLC job per <= per_job events, each with the stdlib Ctor table of ITS OWN events only (the table is turned into
+    # TLA+ functions once per run at a cost quadratic in its size)
+    shards = max(1, min(shards, len(events) // 200 or 1), -(-len(events) // per_job))
     parts = [events[i::shards] for i in range(shards)]
     jobs = []
     for k, part in enumerate(parts):
+        tab = CtorTable()
+        for e in part:
+            if e[0] == "Decode":
+                tab.add_pair(e[2], e[3])
+            elif e[0] == "Encode" and e[4][0] == "ok":
+                tab.add_pair(e[2], e[4][1])       # round-trip events need the wire forms of their values
+        ctor = os.path.join(wd, f"ctor_{module}_{k}.json")
+        with open(ctor, "w") as fh:
+            json.dump(tab.dump(), fh)
         path = os.path.join(wd, f"trace_{module}_{k}.ndjson")
         with open(path, "w") as fh:
             for e in part:
                 fh.write(json.dumps(e) + "\n")
         jobs.append((module, wd, path, ctor, extra_env or {}, timeout))
     ctx = mp.get_context("fork")
-    with ctx.Pool(len(jobs)) as pool:
+    with ctx.Pool(min(16, len(jobs))) as pool:
         results = pool.map(_validate_one, jobs)
     bad = {}
     for r in results:
